@@ -1404,6 +1404,20 @@ func (s *nsSim) fairPhase(clientPick func(n int) int) {
 			}
 		}
 		if i%E == 0 {
+			if client != nil && client.alive {
+				// the client's replica may have been removed from the shard in the meantime (a
+				// membership change still in flight when the faults ended): nobody tells a
+				// removed replica anything any more and it is not a replica of the shard, so
+				// the client goes to a member
+				mem, _ := s.latestMembership()
+				_, v := mem.Addresses[client.id]
+				_, nv := mem.NonVotings[client.id]
+				if !v && !nv {
+					s.logf("    fair phase client leaves r%d (removed from the shard)", client.id)
+					s.flag("fair-client-left-removed-replica")
+					client = nil
+				}
+			}
 			if client == nil || !client.alive {
 				client = pickClient()
 				if client != nil {
